@@ -790,6 +790,7 @@ func (pm *ProtocolManager) handleTxsMsg(msg *p2p.Msg) error {
 			continue
 		}
 
+		tx := tx // the goroutine below must keep the transaction of this iteration, the loop variable moves on
 		go func() {
 			// 判断接收到的交易是否在本分支已经存在
 			currentBlock := pm.chain.CurrentBlock()
